@@ -14,6 +14,7 @@ import (
 	"manticheck/internal/lanes"
 	"manticheck/internal/lin"
 	"manticheck/internal/prove"
+	"manticheck/internal/report"
 )
 
 // C01 — password-hash primitives (DESIGN.md §4 C01; Appendix A rows C01.a–d).
@@ -59,6 +60,8 @@ func runC01(c *Ctx) {
 		"the E1 prover of internal/prove (dominating branch conditions, len facts for string slicing / concatenation / strings.Repeat, φ-join, Fourier–Motzkin) is sound",
 		"SPEC constants: LM magic \"KGS!@#$%\" (MS-NLMP 3.3.1), DCC2 PBKDF2 keyLen 16 and HMAC-SHA1 (MS-Cache v2), hashcat formats \"$DCC2$%d#%s#%s\" (mode 2100) and \"hash:user\" (mode 1100)",
 	}
+	r.Explanation += crySxExplain
+	r.Assumptions = append(r.Assumptions, crySxAssume)
 	x := &c01{cry: newCry(c)}
 	x.w = prove.NewWorld(c.P)
 
@@ -89,6 +92,7 @@ func runC01(c *Ctx) {
 	x.guard(c01R2, "R2 analysis", "", x.r2)
 	x.guard(c01R3, "R3 analysis", "", x.r3)
 	x.r4()
+	x.sxDebugAll()
 	x.finish()
 
 	// one obligation per declared field of MD4 for each of Sum and HexSum
@@ -197,18 +201,26 @@ func (x *c01) hashIs(fn *ssa.Function, v ssa.Value, construct string, want []seg
 func (x *c01) r2() {
 	// md4.Sum(data) = New → Write(data) → Sum
 	if fn := x.fPkgSum; fn != nil {
+		g := x.begin()
 		for _, ret := range cryptoSuccessReturns(fn) {
 			x.hashIs(fn, ret.Results[0], x.P.FuncName(fn)+": return = MD4(data)", []segWant{
 				{what: "data", needs: []need{{what: "data", src: isParam(0)}}},
 			})
 		}
+		if !g.clean() {
+			x.md4BySx(g, fn, x.P.FuncName(fn)+": return = MD4(data)", 1, func(sx *flow.Sx) *flow.Tm { return paramTm(fn, 0) })
+		}
 	}
 	// nt.NTHash
 	if fn := x.fNTHash; fn != nil {
+		g := x.begin()
 		for _, ret := range cryptoSuccessReturns(fn) {
 			x.hashIs(fn, ret.Results[0], x.P.FuncName(fn)+": return = MD4(UTF16LE(password))", []segWant{
 				{what: "EncodeUTF16LE(password)", needs: []need{{what: "password", src: isParam(0), must: []string{x.lEnc}}}},
 			})
+		}
+		if !g.clean() {
+			x.md4BySx(g, fn, x.P.FuncName(fn)+": return = MD4(UTF16LE(password))", 1, func(sx *flow.Sx) *flow.Tm { return sx.TmApp(x.lEnc, paramTm(fn, 0)) })
 		}
 	}
 	x.wrapper(x.fNTHashHex, x.fNTHash, []argWant{{param: 0, what: "password"}}, true)
@@ -225,7 +237,7 @@ type argWant struct {
 }
 
 // wrapper: result = [ToLower](hex(raw(args))) (hexed) or raw(args) itself.
-func (x *c01) wrapper(fn, raw *ssa.Function, args []argWant, hexed bool) {
+func (x *c01) wrapperSyn(fn, raw *ssa.Function, args []argWant, hexed bool) {
 	if fn == nil || raw == nil {
 		return
 	}
@@ -280,10 +292,16 @@ func (x *c01) r2dcc() {
 		x.label(f)
 	}
 	if fn := fFromNT; fn != nil {
+		g := x.begin()
 		for _, ret := range cryptoSuccessReturns(fn) {
 			x.hashIs(fn, ret.Results[0], x.P.FuncName(fn)+": return = MD4(ntHash ‖ UTF16LE(lower(username)))", []segWant{
 				{what: "ntHash", needs: []need{{what: "ntHash", src: isParam(0)}}},
 				{what: "EncodeUTF16LE(ToLower(username))", needs: []need{{what: "username", src: isParam(1), must: []string{x.lLower, x.lEnc}}}},
+			})
+		}
+		if !g.clean() {
+			x.md4BySx(g, fn, x.P.FuncName(fn)+": return = MD4(ntHash ‖ UTF16LE(lower(username)))", 2, func(sx *flow.Sx) *flow.Tm {
+				return flow.TmCat(paramTm(fn, 0), sx.TmApp(x.lEnc, sx.TmApp("strings.ToLower", paramTm(fn, 1))))
 			})
 		}
 	}
@@ -298,8 +316,16 @@ func (x *c01) r2dcc() {
 			continue
 		}
 		name := x.P.FuncName(fn)
+		g := x.begin()
+		rawFn := fFromPw
+		if fn == fNTCat {
+			rawFn = fFromNT
+		}
 		args, call := x.sprintf(fn, c01R2, name, c01DCCFormat)
 		if args == nil {
+			if rawFn != nil {
+				x.dccLineBySx(g, fn, rawFn)
+			}
 			continue
 		}
 		hl := x.e.Name(hexFn)
@@ -312,6 +338,9 @@ func (x *c01) r2dcc() {
 		set1 := x.e.Prov(fn, args[1])
 		bad, und = judge(set1, []need{{what: "username", src: isParam(1), must: []string{x.lLower}}}, nil)
 		x.verdict(c01R2, name+": Sprintf #2 = ToLower(username)", call.Pos(), bad, und, trim(set1.String(), 160))
+		if !g.clean() && rawFn != nil {
+			x.dccLineBySx(g, fn, rawFn)
+		}
 	}
 }
 
@@ -463,6 +492,20 @@ func (x *c01) r2dcc2() {
 	sha := x.ext("crypto/sha1", "New")
 	if fn := fWithNT; fn != nil && pb != nil {
 		name := x.P.FuncName(fn)
+		g := x.begin()
+		x.dcc2Syn(fn, name, pb, sha)
+		if !g.clean() {
+			x.dcc2BySx(g, fn)
+		}
+	}
+	// DCC2HashWithPassword(username, password, rounds) = DCC2HashWithNTHash(username, NTHash(password), rounds)
+	x.wrapper(fWithPw, fWithNT, []argWant{{param: 0, what: "username"}, {param: 1, what: "NTHash(password)", via: []string{x.lNT}}, {param: 2, what: "rounds"}}, false)
+	x.wrapper(fHash, fWithPw, []argWant{{param: 0, what: "username"}, {param: 1, what: "password"}, {param: 2, what: "rounds"}}, false)
+}
+
+// dcc2Syn is the shape recogniser for DCC2HashWithNTHash.
+func (x *c01) dcc2Syn(fn *ssa.Function, name string, pb, sha *ssa.Function) {
+	{
 		calls := callsTo(fn, pb)
 		if len(calls) != 1 {
 			x.R.Fail(c01R2, name+": pbkdf2.Key", x.pos(fn.Pos()), fmt.Sprintf("%d calls to pbkdf2.Key, expected exactly one", len(calls)))
@@ -523,9 +566,6 @@ func (x *c01) r2dcc2() {
 			}
 		}
 	}
-	// DCC2HashWithPassword(username, password, rounds) = DCC2HashWithNTHash(username, NTHash(password), rounds)
-	x.wrapper(fWithPw, fWithNT, []argWant{{param: 0, what: "username"}, {param: 1, what: "NTHash(password)", via: []string{x.lNT}}, {param: 2, what: "rounds"}}, false)
-	x.wrapper(fHash, fWithPw, []argWant{{param: 0, what: "username"}, {param: 1, what: "password"}, {param: 2, what: "rounds"}}, false)
 }
 
 func constI(v ssa.Value) (int64, bool) {
@@ -759,7 +799,7 @@ func (x *c01) keyBuilder(ch *lmChain) (levels []lmLevel, buf ssa.Value, before [
 	return append(append([]lmLevel{}, ch.levels...), lmLevel{fn: g, site: call}), buf, before
 }
 
-func (x *c01) r2lm() {
+func (x *c01) r2lmSyn() {
 	fn := x.fLMHash
 	if fn == nil {
 		return
@@ -877,7 +917,13 @@ func (x *c01) r2lm() {
 			ch.outObj, ch.outLo = root, lo
 		}
 		if b, ok := x.e.ConstBytesRO(ch.enc.Call.Args[1]); !ok {
-			x.R.Undecided(ec, ec, x.pos(ch.enc.Pos()), "plaintext "+flow.Expr(ch.enc.Call.Args[1])+" is not a constant that nothing writes")
+			why := "plaintext " + flow.Expr(ch.enc.Call.Args[1]) + " is not a constant that nothing writes"
+			if gw := globalWriterOf(x.e, ch.enc.Call.Args[1]); gw != "" {
+				// a write to the variable outside its initialiser was seen
+				x.positively(ec, ec, x.pos(ch.enc.Pos()), report.Undecided, why+": "+gw)
+			} else {
+				x.R.Undecided(ec, ec, x.pos(ch.enc.Pos()), why)
+			}
 		} else if string(b) != c01Magic {
 			x.R.Fail(c01R2, ec, x.pos(ch.enc.Pos()), fmt.Sprintf("plaintext is %q, the LM magic constant is %q", string(b), c01Magic))
 		} else if !dstOK {
@@ -2166,4 +2212,26 @@ func (x *c01) r3dec() {
 func (x *c01) r4() {
 	// performed inside r2lm (the key-spread lanes also identify the halves)
 	x.R.Extra["r4_note"] = "R4 obligations are produced while analysing lm.LMHash's two des.NewCipher chains"
+}
+
+// globalWriterOf: v reads a package-level variable of the module that some
+// function writes outside the package initialiser; names that write.
+func globalWriterOf(e *flow.Engine, v ssa.Value) string {
+	for d := 0; d < 6; d++ {
+		switch y := flow.Strip(v).(type) {
+		case *ssa.UnOp:
+			if g, ok := y.X.(*ssa.Global); ok {
+				return e.GlobalWriter(g)
+			}
+			return ""
+		case *ssa.Slice:
+			if g, ok := y.X.(*ssa.Global); ok {
+				return e.GlobalWriter(g)
+			}
+			v = y.X
+		default:
+			return ""
+		}
+	}
+	return ""
 }
